@@ -16,13 +16,14 @@ NAME = 'OBJM'
 SRC = _REPO + '/src/bloch/runtime/runtime_evaluator.cpp'
 NAMESPACE = 'bloch::runtime'
 FUNCS = []
-AST_FILTER = ['RuntimeEvaluator::destroyObject', 'RuntimeEvaluator::beginScope', 'bloch::runtime::Value', 'RuntimeEvaluator::exec', 'RuntimeEvaluator::eval', 'RuntimeEvaluator::runConstructorChain']
+AST_FILTER = ['RuntimeEvaluator::destroyObject', 'RuntimeEvaluator::beginScope', 'bloch::runtime::Value', 'RuntimeEvaluator::exec', 'RuntimeEvaluator::eval', 'RuntimeEvaluator::runConstructorChain', 'findStaticFieldWithOwner']
 SHIM = 'objm.h'
 THROWING = set()
 DROPS = ['region ctor_phases: three statements of runConstructorChain in their source order - the `if (cls->base)` block (choice of the base constructor and the recursive call), the runFieldInitialisers(cls, obj) call and the `if (ctor && ctor->body)` body loop; '
          'what lies between them (tracing to std::cerr, the parameter-to-field copy of `= default` constructors) is dropped; constructors of a class are rows {decl, params}; argumentsConversionCost is an uninterpreted function',
          'region member_dispatch: in the member-call branch of RuntimeEvaluator::eval, the then-branch of `if (target.type == Value::Type::Object && target.objectValue)` (which method runs for obj.m(...) / super.m(...)); findClass / findMethod / the vtable lookup are uninterpreted functions, methods are rows of a method table',
          'region member_dispatch_super: the branch that follows it, `else if (target.type == Value::Type::ClassRef && target.classRef)` (Name.m(...) and super.m(...): eval(SuperExpression) yields a reference to the base class); currentThisObject() is a ghost object id',
+         'findStaticFieldWithOwner (file-level function, whole): `staticFieldIndex.find(name)` of a class is an uninterpreted (has, offset) pair; a RuntimeField* is (class, offset)',
          'regions exec_for / exec_while: the ForStatement / WhileStatement branches of exec (header parts become opaque statement ids; exec / eval of them are the ghost-recording models, which also count what runs while a return is pending; the for initialiser is a declaration or expression statement and cannot return)',
          'region exec_block: the BlockStatement branch of RuntimeEvaluator::exec (`block` becomes an opaque body identity; exec of the nested statements is the ghost-recording model)',
          'region dtor_walk: the for statement over the class chain inside `if (runUserDestructor && obj->cls)` of destroyObject; `obj`, `runUserDestructor` and the evaluator state become parameters / file-level variables',
@@ -63,6 +64,10 @@ class Profile(Lower):
         (r'^std::vector<(bloch::runtime::)?RuntimeConstructor(, .*)?>$', 'bl_ctors'),
         (r'^std::vector<(bloch::runtime::)?RuntimeTypeInfo(, .*)?>$', 'bl_ptypes'),
         (r'^std::optional<int>$', 'opt_int'),
+        (r'^std::pair<(bloch::runtime::)?RuntimeField \*, (bloch::runtime::)?RuntimeClass \*>$', 'pair_fc'),
+        (r'^(bloch::runtime::)?RuntimeField \*$', 'bl_fptr'),
+        (r'^std::unordered_map<std::(basic_string<char.*>|string), (unsigned long|size_t).*>::iterator$', 'bl_sfit'),
+        (r'^std::__detail::_Node_iterator(_base)?<std::pair<(const )?std::(basic_string<char.*>|string), (unsigned long|size_t)>.*$', 'bl_sfit'),
         (r'^std::unordered_map<std::(basic_string<char.*>|string), (bloch::runtime::)?RuntimeMethod \*.*>::iterator$', 'bl_mth'),
         (r'^std::__detail::_Node_iterator<std::pair<const std::(basic_string<char.*>|string), (bloch::runtime::)?RuntimeMethod \*>.*$', 'bl_mth'),
         (r'^std::vector<(bloch::runtime::)?Value(, .*)?>( \*)?$', 'bl_argsref'),
@@ -136,6 +141,12 @@ class Profile(Lower):
             return 'g_ctor[BL_IDX(%s, KMAX)].%s' % (self.expr(sb), nm)
         if bt == 'bl_decl' and nm in ('line', 'column'):
             return 'DECL_%s(%s)' % (nm.upper(), self.expr(sb))
+        if bt == 'bl_clsid' and nm in ('staticFieldIndex', 'staticFields'):
+            return 'CLS_%s(%s)' % (nm, self.expr(sb))
+        if bt == 'bl_sfit' and nm == 'second':
+            return '((size_t)%s)' % self.expr(sb)
+        if nm == 'second' and sb.get('kind') == 'CXXOperatorCallExpr' and callee_name(kids(sb)[0]) == 'operator->' and self.ct(kids(sb)[1]) == 'bl_sfit':
+            return '((size_t)%s)' % self.expr(kids(sb)[1])
         if bt == 'bl_clsid' and nm in ('base', 'destructorDecl', 'name'):
             return 'g_cls[BL_IDX(%s, CMAX)].%s' % (self.expr(sb), nm)
         if bt == 'bl_objid' and nm == 'cls':
@@ -150,6 +161,13 @@ class Profile(Lower):
             return '(%s).%s' % (self.expr(sb), nm)
         raise Unsupported('member %s of %s' % (nm, qt(sb)))
 
+    def unary(self, n):
+        if n.get('opcode') == '&':
+            e = self.expr(kids(n)[0])
+            if e.startswith('SF_ELEM('):
+                return 'objm_fptr(%s)' % e[len('SF_ELEM('):-1]
+        return super().unary(n)
+
     def opcall(self, n):
         ks = kids(n)
         op = callee_name(ks[0])
@@ -161,6 +179,10 @@ class Profile(Lower):
             return '(%s).v' % self.expr(args[0])
         if op == 'operator[]' and t0 == 'bl_stmts':
             return 'BODY_STMT(%s, %s)' % (self.expr(args[0])[len('BODY_STMTS('):-1], self.expr(args[1]))
+        if op in ('operator==', 'operator!=') and t0 == 'bl_sfit':
+            return '(%s %s %s)' % (self.expr(args[0]), op[len('operator'):], self.expr(args[1]))
+        if op == 'operator[]' and self.expr(args[0]).startswith('CLS_staticFields('):
+            return 'SF_ELEM(%s, %s)' % (self.expr(args[0])[len('CLS_staticFields('):-1], self.expr(args[1]))
         if op == 'operator->' and t0 in ('bl_body', 'bl_objid', 'bl_mth'):
             return self.expr(args[0])
         if op in ('operator==', 'operator!=') and t0 == 'bl_mth':
@@ -205,6 +227,9 @@ class Profile(Lower):
             return 'objm_findClass(%s)' % self.expr(args[0])
         if so.get('kind') == 'CXXThisExpr' and name == 'findMethod' and len(args) == 3:
             return 'objm_findMethod(%s, %s)' % (self.expr(args[0]), self.expr(args[1]))      # the argument list is fixed for the call: dropped
+        if name in ('find', 'end') and self.expr(obj).startswith('CLS_staticFieldIndex('):
+            c = self.expr(obj)[len('CLS_staticFieldIndex('):-1]
+            return ('objm_sfi_find(%s, %s)' % (c, self.expr(args[0]))) if name == 'find' else '((bl_sfit)-1)'
         if name in ('find', 'end'):
             vt = self.expr(obj)
             if vt.startswith('BL_VTABLE('):
@@ -232,6 +257,9 @@ class Profile(Lower):
         return self.membercall_other(n, me['name'], kids(me)[0], ks[1:])
 
     def initlist(self, n):
+        if self.ctype_safe(qt(n)) == 'pair_fc' and len(kids(n)) == 2:
+            a, b = [self.expr(x) for x in kids(n)]
+            return '(pair_fc){ %s, %s }' % ('objm_fptr_null()' if a in ('BL_NULL', '0') else a, '0' if b == 'BL_NULL' else b)
         if 'VarEntry' in norm_type(qt(n)) and len(kids(n)) == 3:
             return '(VarEntry){ %s }' % ', '.join(self.expr(a) for a in kids(n))
         return super().initlist(n)
@@ -239,6 +267,11 @@ class Profile(Lower):
     def construct(self, n):
         ct = self.ctype_safe(qt(n))
         args = [a for a in kids(n) if a.get('kind') != 'CXXDefaultArgExpr']
+        if ct == 'pair_fc' and len(args) == 2:
+            a, b = [self.expr(x) for x in args]
+            return '(pair_fc){ %s, %s }' % ('objm_fptr_null()' if a in ('BL_NULL', '0') else a, '0' if b == 'BL_NULL' else b)
+        if ct == 'pair_fc' and len(args) == 1:
+            return self.expr(args[0])
         if ct == 'Value' and len(args) == 0:
             return '(Value){0}'
         if ct in ('VarEntry', 'Value', 'bl_cname', 'bl_mth') and len(args) == 1:
@@ -493,6 +526,20 @@ def lower_regions(docs, prof):
             prof.region_unlowered = {}
         prof.region_unlowered['member_dispatch_super'] = str(e)
         out.append((hs, None))
+    # the static-field lookup: nearest declaring class on the chain cls, base, base-of-base, ...
+    hsf = 'pair_fc objm_findStaticFieldWithOwner(bl_clsid cls, bl_cname name)'
+    try:
+        ds = cxx2c.find_functions(docs, 'findStaticFieldWithOwner')
+        if len(ds) != 1:
+            raise Unsupported('findStaticFieldWithOwner: %d definitions' % len(ds))
+        prof.ctx = None
+        h7, l7 = prof.func(ds[0], cname='findStaticFieldWithOwner', is_method=False)
+        out.append((hsf, l7))
+    except Unsupported as e:
+        if not hasattr(prof, 'region_unlowered'):
+            prof.region_unlowered = {}
+        prof.region_unlowered['findStaticFieldWithOwner'] = str(e)
+        out.append((hsf, None))
     return out
 
 
@@ -576,6 +623,18 @@ typedef struct { bl_decl decl; bl_ptypes params; } CtorRow; CtorRow g_ctor[KMAX]
 bl_decl superCtorDecl;                     /* local of runConstructorChain that the region sets */
 int g_n_base, g_t_base, g_n_fields, g_t_fields; bl_clsid g_base_cls, g_fields_cls; bl_objid g_base_obj, g_fields_obj; bl_decl g_base_decl; _Bool g_base_raised, g_fields_raised;
 size_t g_cb_n;
+/* ---- findStaticFieldWithOwner: which class declares a static field of a name, and at which offset (uninterpreted) */
+size_t gp; _Bool g_sfhas[CMAX];          /* ghost: a position on the chain; SF_HAS of every chain element, computed once (no calls in loop invariants) */
+static inline bl_fptr objm_fptr_null(void) { bl_fptr p; p.cls = 0; p.off = 0; p.nonnull = 0; return p; }
+static inline bl_fptr objm_fptr(bl_clsid c, size_t off) { bl_fptr p; p.cls = c; p.off = off; p.nonnull = 1; return p; }
+#ifndef NATIVE
+_Bool __CPROVER_uninterpreted_sf_has(bl_clsid, bl_cname); unsigned __CPROVER_uninterpreted_sf_off(bl_clsid, bl_cname);
+#define SF_HAS(c, n) __CPROVER_uninterpreted_sf_has(c, n)
+#define SF_OFF(c, n) ((size_t)(__CPROVER_uninterpreted_sf_off(c, n) % 16u))
+static inline bl_sfit objm_sfi_find(bl_clsid c, bl_cname n) { return SF_HAS(c, n) ? (bl_sfit)SF_OFF(c, n) : (bl_sfit)-1; }
+#endif
+#define SCHAIN_OK (g_len >= 1 && g_len < CMAX && """ + _conj('J >= g_len || (g_chain[J] >= 1 && g_chain[J] < CMAX)', range(0, 8)) + ' && ' + _conj('J1 >= g_len || g_chain[J1] == g_cls[g_chain[J]].base', range(0, 7)) + r""" && g_chain[0] == cls && g_cls[g_chain[g_len - 1]].base == 0)
+#define NONE_BEFORE(p) (""" + _conj('J >= (p) || !g_sfhas[J]', range(0, 8)) + r""")
 /* ghost: the cheapest applicable base constructor (first of the cheapest), computed next to the code's own choice */
 _Bool g_min_has; int g_min_cost; size_t g_min_idx, g_min_cnt; bl_decl g_min_decl;
 #ifndef NATIVE
@@ -744,6 +803,20 @@ CONTRACTS['member_dispatch_super'] = {
         E('eval.member_call.static_call_has_no_receiver', '!viaSuper ==> receiver == 0', ['C08']),
     ],
 }
+CONTRACTS['findStaticFieldWithOwner'] = {
+    'contract': [
+        R('bl_exc == 0 && cls >= 1 && cls < CMAX && TABLE_OK && SCHAIN_OK && gp < CMAX && g_pos == 0'),
+        A('g_pos, __CPROVER_object_whole(g_sfhas)'),
+        # C08 ("static fields are shared per class"): the storage of a static field is that of the class that DECLARES it - the nearest one on the
+        # chain cls, base, base-of-base - whichever subclass or object it is reached through
+        E('static_field.owner_is_the_nearest_declaring_class', '(gp < g_len && SF_HAS(g_chain[gp], name) && NONE_BEFORE(gp)) ==> (%s.second == g_chain[gp] && %s.first.nonnull && %s.first.cls == g_chain[gp] && %s.first.off == SF_OFF(g_chain[gp], name))' % ((RET,) * 4), ['C08']),
+        E('static_field.none_when_no_class_of_the_chain_declares_it', 'NONE_BEFORE(g_len) ==> (%s.second == 0 && !%s.first.nonnull)' % (RET, RET), ['C08']),
+    ],
+    'prologue': ' '.join('g_sfhas[%d] = (%d < g_len) && SF_HAS(g_chain[%d], name);' % (j, j, j) for j in range(8)),
+    'loops': {0: {'assigns': 'cur, g_pos', 'body_begin': 'g_pos = g_pos + 1;', 'ghost_in_bounded': True,
+                  'invariants': [('findStaticField.loop.on_the_chain', 'g_pos <= g_len && cur >= 0 && cur < CMAX && cur == (g_pos < g_len ? g_chain[g_pos] : 0) && NONE_BEFORE(g_pos)')],
+                  'decreases': 'cur'}},
+}
 CONTRACTS['exec_for'] = {
     'contract': [
         R('bl_exc == 0 && g_depth < 1000000 && g_begins == 0 && g_ends == 0 && g_pclock == 0 && g_exec_n == 0 && !ev_m_hasReturn && g_after_return == 0'),
@@ -769,6 +842,7 @@ CONTRACTS['exec_while'] = {
                   'invariants': [('exec_while.loop.no_return_pending', '!ev_m_hasReturn && g_after_return == 0')]}},
 }
 HARNESSES = [
+    dict(name='findStaticFieldWithOwner', fn='findStaticFieldWithOwner', replace=[], flags=[], props=['C08', 'C12'], timeout=300, unwind=9, canaries=[('1', 'return')]),
     dict(name='exec_for', fn='exec_for', replace=[], flags=[], props=['C09', 'C17', 'C12', 'C07'], timeout=300, unwind=4, guards_no_decreases=True,
          canaries=[('ev_m_hasReturn', 'left by a return'), ('!ev_m_hasReturn', 'left by the condition')]),
     dict(name='exec_while', fn='exec_while', replace=[], flags=[], props=['C07', 'C09', 'C12'], timeout=300, unwind=4, guards_no_decreases=True,
